@@ -1,3 +1,4 @@
+import Pycoin.Model.BlockOffsets
 import Pycoin.Proofs.MerkleBlock
 import Pycoin.Proofs.Block
 import Pycoin.Model.Sha256
@@ -320,6 +321,75 @@ theorem C14_block_rt_nocheck (c : Coin) (blk : Block) (hwf : blk.WF) (rest : Byt
     Block.parse c true false (Spec.Block.block blk ++ rest) = .ok (blk, rest) := by
   rw [Block.parse_stream_core c blk hwf _ rest false (Block.stream_eq blk hwf)]
   simp [Block.setTxs, txs_ne_nil hwf.nonempty]
+
+
+/-! ### `include_offsets=True`: the recorded `offset_in_block` of every transaction -/
+
+theorem offsetsFrom_snd {α : Type} (s : α → Except Wire.Err Bytes) : ∀ (l : List α) (start : Nat),
+    (Block.offsetsFrom s start l).map (·.2) = l
+  | [], _ => rfl
+  | a :: as, start => by simp [Block.offsetsFrom, offsetsFrom_snd s as]
+
+theorem parseNOff_streamList {α : Type} {s : α → Except Wire.Err Bytes} {p : Parser α} {WF : α → Prop}
+    (law : PrefixLaw s p WF) (total : Nat) :
+    ∀ (l : List α) (b rest : Bytes) (start : Nat), (∀ a ∈ l, WF a) → streamList s l = .ok b →
+      total = start + (b ++ rest).length →
+      Block.parseNOff p total l.length (b ++ rest) = .ok (Block.offsetsFrom s start l, rest)
+  | [], b, rest, start => by
+    intro _ h _
+    simp only [streamList] at h
+    injection h with h
+    subst h
+    simp [Block.parseNOff, Block.offsetsFrom]
+  | a :: as, b, rest, start => by
+    intro hwf h htot
+    unfold streamList at h
+    cases hx : s a with
+    | error e => simp [hx] at h
+    | ok x =>
+      cases hr : streamList s as with
+      | error e => simp [hx, hr] at h
+      | ok r =>
+        simp only [hx, hr] at h
+        injection h with h
+        subst h
+        have h1 := law a x (r ++ rest) (hwf a (by simp)) hx
+        have h2 := parseNOff_streamList law total as r rest (start + x.length) (fun y hy => hwf y (by simp [hy])) hr
+          (by simp only [List.length_append] at htot ⊢; omega)
+        have h3 : total - (x ++ (r ++ rest)).length = start := by
+          simp only [List.length_append] at htot ⊢; omega
+        simp only [List.length_cons, Block.parseNOff, List.append_assoc, h1, h2, h3, Block.offsetsFrom, hx]
+
+/-- C14.block_offsets: parsing a streamed block with `include_offsets=True` gives the same block as without, and
+records for transaction `i` the position the wire format gives it: 80 header bytes, the compact-size count, and the
+serialisations of the transactions before it -/
+theorem C14_block_offsets (c : Coin) (blk : Block) (hwf : blk.WF) (rest : Bytes) (check : Bool) :
+    Block.parseWithOffsets c check (Spec.Block.block blk ++ rest) =
+      (match Block.setTxs c blk.hdr blk.txs check with
+       | .error e => .error e
+       | .ok blk' => .ok (blk', (Block.offsetsFrom (fun t : Tx => t.stream)
+           (80 + (Spec.Wire.compactSize blk.txs.length).length) blk.txs).map (·.1), rest)) := by
+  have hs := Block.stream_eq blk hwf
+  obtain ⟨hb, nb, body, h1, h2, h3, hbeq⟩ := Block.stream_parts blk _ hwf.nonempty hs
+  have hhb : hb = Spec.Block.header blk.hdr := by
+    have := Block.streamHeader_eq blk.hdr hwf.hdr
+    rw [h1] at this; exact Except.ok.inj this
+  have hlen : hb.length = 80 := by rw [hhb]; exact Spec.Block.header_length blk.hdr hwf.hdr.prev hwf.hdr.root
+  have hnb : nb = Spec.Wire.compactSize blk.txs.length := by
+    have : streamStruct tbl ['I'] [.int blk.txs.length] = .ok (Spec.Wire.compactSize blk.txs.length) := by
+      simp [streamStruct, tbl_I, streamLetter, streamSatoshiInt_eq _ hwf.count]
+    rw [h2] at this; exact Except.ok.inj this
+  have l1 := Block.header_law blk.hdr hb ((nb ++ body) ++ rest) ⟨hwf.hdr.prev, hwf.hdr.root⟩ h1
+  have l2 := parseStruct_streamStruct tbl ['I'] [.int blk.txs.length] nb (body ++ rest)
+    (by simp [StructWF, tbl_I, LetterWF]) h2
+  have l3 := parseNOff_streamList (tx_law c) (hb ++ (nb ++ (body ++ rest))).length blk.txs body rest
+    (80 + (Spec.Wire.compactSize blk.txs.length).length) hwf.txs h3
+    (by simp only [List.length_append, hlen, hnb]; omega)
+  unfold Block.parseWithOffsets
+  rw [hbeq]
+  simp only [List.append_assoc] at l1 l2 ⊢
+  simp only [l1, Gen.Messages.block_parse_parse_count, l2, Int.toNat_natCast, l3, offsetsFrom_snd]
+  rfl
 
 end blocks
 
